@@ -350,7 +350,8 @@ def check_triangle(args):
                 ts.append(tv / math.sqrt(mink(tv, tv)))
         c = mink(ts[0], ts[1])
         want = math.cos(math.pi / t[k])
-        if abs(c - want) > (1e-6 if anyideal else 1e-8):
+        # a parabolic rotation product has a 3x3 Jordan block: its fixed point is known to eps^(1/3) only
+        if abs(c - want) > (2e-4 if anyideal else 1e-9):
             bad.append(("triangle.angle", "angle at the fixed point of %s: cos = %.10f, spec cos(pi/%d) = %.10f" % (["ab", "bc", "ca"][k], c, t[k], want)))
     return key, bad
 
@@ -372,13 +373,23 @@ def run(run, replay=None):
         r3.append(c)
         seen.add(tuple(map(tuple, c)))
     r3x = [M for M in cc.all_mats(3, [2, 3, 4, 6, 0]) if tuple(map(tuple, M)) not in seen]
-    batches.append(("rank3", r3, [5 if quick else 8] * len(r3)))
-    batches.append(("rank3int", r3x, [5 if quick else 8] * len(r3x)))
-    n4, n5 = (40, 16) if quick else (300, 80)
+    batches.append(("rank3", r3, [6 if quick else 8] * len(r3)))
+    batches.append(("rank3int", r3x, [6 if quick else 8] * len(r3x)))
+    n4, n5 = (60, 20) if quick else (300, 80)
     r4 = cc.random_mats(rng, 4, [2, 3, 4, 6, 0], n4 // 2, weights=[3, 3, 1, 1, 2]) + cc.random_mats(rng, 4, cc.LABELS12, n4 // 2)
     batches.append(("rank4", r4, [4 if quick else 6] * len(r4)))
     r5 = cc.random_mats(rng, 5, [2, 3, 4, 6, 0], n5 // 2, weights=[4, 3, 1, 1, 1]) + cc.random_mats(rng, 5, cc.LABELS12, n5 // 2, weights=[4, 3, 2, 1, 1, 1, 1, 1, 1, 1, 1, 2])
     batches.append(("rank5", r5, [3 if quick else 5] * len(r5)))
+    only_tri = None
+    if replay:
+        import json
+        first = json.load(open(replay))["first"]
+        if "case" in first["detail"]:
+            M = first["detail"]["case"]["matrix"]
+            batches = [("replay", [M], [{2: 13, 3: 6 if quick else 8, 4: 4 if quick else 6}.get(len(M), 3 if quick else 5)])]
+        else:
+            only_tri = first["key"]
+            batches = batches[:1]
     MATS, RADS = [], []
     for (_, ms, rs) in batches:
         MATS += ms
@@ -405,7 +416,7 @@ def run(run, replay=None):
     ncfg = len(CONFIGS)
     plan = []
     for m in range(len(MATS)):
-        if quick:
+        if quick and not replay:
             idx = [(4 * m + k) % ncfg for k in range(4)]
         else:
             idx = list(range(ncfg))
@@ -423,7 +434,10 @@ def run(run, replay=None):
         outs = pool.map(check_matrix, plan, chunksize=2)
         tri = [tuple(t) for t in tables["TRI"]]
         tri.sort()
-        if quick:
+        if replay:
+            target = tuple(max(int(x), 0) for x in only_tri[4:].strip("()").split(",")) if only_tri else None
+            tri = [t for t in tri if t == target]
+        elif quick:
             keep = [t for t in tri if t[0] <= t[1] <= t[2] or 0 in t]
             rest = [t for t in tri if t not in set(keep)]
             tri = keep + rng.sample(rest, min(len(rest), 200))
